@@ -306,8 +306,8 @@ def run_ftg(chk, c, items, meta):
     vals = numpy.array(ft.data, dtype=float)
     w = numpy.array(sd.axis.data, dtype=float)
     d = numpy.array(sd.data, dtype=float)
-    # which branch the code takes is its own comparison |diff| > atol, made in the units current at the call (an oracle of the model)
-    with _in_units(cu):
+    # which branch the code takes is its own comparison |diff| > atol, made in internal units whatever the units current at the call
+    with qr.energy_units("int"):
         i0, diff = sd.axis.locate(0.0)
     direct = bool(abs(diff) > 1.0e-7)
     chk.count("ftg:" + ("direct" if direct else "zero_point") + (":offset" if c["offset"] else ""))
@@ -900,6 +900,10 @@ def main():
         r3 = cm.rng(PID + "/units")
         cases.append({"kind": "ftg", "params": {"ftype": "OverdampedBrownian", "reorg": 30.0, "cortime": 100.0, "T": 300.0}, "nh": 64,
                       "step": 2.0 ** -9, "offset": 0.0, "arg": None, "call_units": "1/cm"})
+        # regression (fixed in /repo 3028409): zero frequency was located in the current units; in THz floor((0 - start)/step) fell one
+        # index low and the value at w = 0 became (1 + 1/tanh(0)) * 0 = NaN
+        cases.append({"kind": "ftg", "params": {"ftype": "Underdamped", "reorg": 37.466045004313095, "T": 20.0, "freq": 300.0, "gamma": 150.0},
+                      "nh": 20, "step": 0.003, "offset": 0.0, "arg": None, "call_units": "THz"})
         cases += [gen_sdu(r3, k) for k in range(nsdu)]
     run(chk, cases)
     chk.finish()
